@@ -105,6 +105,8 @@ func vIteB(c bool, a, b byte) byte {
 }
 func vCut()               { panic(vStop{"VERIF-CUT"}) }
 func vMapOrder(on bool)   {}
+func vSchedExplore(maxDeviations int) {}
+func vNumCPU(n int)       {}
 func vNote(s string)      {}
 func vObserve(tag string, v ...interface{}) {
 	s := tag + "="
@@ -255,6 +257,16 @@ func init() {
 		},
 		"vMapOrder": func(ip *Interp, fn *ssa.Function, a []Value) Value {
 			ip.mapPerm = a[0].(*Term).C == 1
+			return nil
+		},
+		"vSchedExplore": func(ip *Interp, fn *ssa.Function, a []Value) Value {
+			n := int(ip.concInt(a[0]))
+			ip.scheduler().explore = n > 0
+			ip.scheduler().maxDev = n
+			return nil
+		},
+		"vNumCPU": func(ip *Interp, fn *ssa.Function, a []Value) Value {
+			ip.numCPU = int(ip.concInt(a[0]))
 			return nil
 		},
 		"vNote": func(ip *Interp, fn *ssa.Function, a []Value) Value {
